@@ -17,6 +17,7 @@
       inverse"), Polynomial.matrix / derivMatrix / CollisionArray.changeBasis (the three
       per-factor facts of [operator_factorisation_partial], validated by the harness). *)
 From Coq Require Import Reals Lra List Bool Arith Lia.
+Set Warnings "-ambiguous-paths,-notation-overridden,-redundant-canonical-projection".
 From Coquelicot Require Import Coquelicot.
 From WG Require Import Lib.NumpySem Lib.BoltzLin.
 From GenC12 Require Import Boltz.
@@ -279,6 +280,15 @@ Lemma fd_crosscheck_lem fresh s h :
   owner w = s /\ observable (owner w) (hp w) = observable s h.
 Proof. apply fd_safe_sound. vm_compute. reflexivity. Qed.
 
+(** ** (5) setBackground stores (and boosts) a copy: the caller's background object is
+    unobservably changed, the stored one is in the plasma frame *)
+Lemma set_background_lem f1 f2 caller h :
+  f1 <> bg_vel caller -> f2 <> bg_vel caller ->
+  let '(c', s', h') := set_background bg_copy_kind bg_boost_target bg_boost_rebinds f1 f2 caller h in
+  bg_observable c' h' = bg_observable caller h /\
+  bg_observable s' h' = (PlasmaFrame, PlasmaFrame).
+Proof. apply bg_safe_sound. vm_compute. reflexivity. Qed.
+
 (* ---------------------------------------------------------------------------------- *)
 Theorem source_linear : forall e dM dT dv dM' dT' dv' c a al be ga,
   source_k e (fun p x => dM p x + c * dM' p x) (fun x => dT x + c * dT' x)
@@ -362,6 +372,14 @@ Theorem fd_crosscheck_leaves_solver_unchanged : forall fresh s h,
   owner w = s /\ observable (owner w) (hp w) = observable s h.
 Proof. exact fd_crosscheck_lem. Qed.
 Print Assumptions fd_crosscheck_leaves_solver_unchanged.
+
+Theorem set_background_works_on_a_copy : forall f1 f2 caller h,
+  f1 <> bg_vel caller -> f2 <> bg_vel caller ->
+  let '(c', s', h') := set_background bg_copy_kind bg_boost_target bg_boost_rebinds f1 f2 caller h in
+  bg_observable c' h' = bg_observable caller h /\
+  bg_observable s' h' = (PlasmaFrame, PlasmaFrame).
+Proof. exact set_background_lem. Qed.
+Print Assumptions set_background_works_on_a_copy.
 
 (** ** (3) linear algebra over an arbitrary field, mathcomp matrices *)
 From mathcomp Require Import all_ssreflect ssralg matrix.
